@@ -286,6 +286,19 @@ def check_arith_tables(repo, scratch):
             continue
         k1, a1_ = _kernel_call(body, kernels)
         k2, a2_ = _kernel_call(arm, kernels)
+        # the run-time arm must BE the kernel call (inside the known plumbing), not an expression that merely contains it:
+        # `interms.push( [Number::Float(OrderedFloat(] [drop_iter_on_err!(self, iter,] [try_numeric_result!(] KERNEL(..) ... )`
+        if name != "rdiv" and k2 is not None:
+            a_ = arm.strip()
+            if a_.startswith("{ "):
+                a_ = a_[2:]
+            shape_ok = a_.startswith("interms . push ( ")
+            a_ = a_[len("interms . push ( "):] if shape_ok else a_
+            for pre in ("Number :: Float ( OrderedFloat ( ", "drop_iter_on_err ! ( self , iter , ", "try_numeric_result ! ( "):
+                if a_.startswith(pre):
+                    a_ = a_[len(pre):]
+            if not (shape_ok and re.match(r"%s \( " % re.escape(k2.split("::")[-1]), a_)):
+                res["undecided"].append(ob + ": the run-time arm is not a plain kernel call (shape not recognised): %s" % arm.strip()[:120]); continue
         if k1 is None or k2 is None:
             res["undecided"].append(ob + ": kernel call not recognised (compiled: %s, run-time: %s)" % (k1, k2)); continue
         if k1 != k2 or _canon_args(a1_) != _canon_args(a2_):
